@@ -132,6 +132,14 @@ def emit (R : α) (c : Cand α) : List (Emit α) :=
     | .S => ⟨nat 1, nat 0, nat 0, l⟩
   [one c.w.1 c.l.1, one c.w.2.1 c.l.2.1, one c.w.2.2 c.l.2.2]
 
+/-- end pose of the concatenation `ret += ConstantVelocity(v, T)` (C12: a constant-velocity
+    segment from the identity ends at `exp(T·v)`; `+=` composes on the right); segments with
+    `T ≤ 0` contribute nothing -/
+def endPose (es : List (Emit α)) : Vec α 4 :=
+  es.foldl (fun g e =>
+    if nat 0 < e.T then SE2.composition g (SE2.exp (mk3 (e.T * e.vx) (e.T * e.vy) (e.T * e.kappa))) else g)
+    SE2.identity
+
 /-- `t_max` of the concatenation: running sum over the non-empty segments -/
 def totalTime (es : List (Emit α)) : α :=
   es.foldl (fun t e => if nat 0 < e.T then t + e.T else t) (nat 0)
